@@ -539,6 +539,24 @@ def main(argv=None):
             for s in range(n_sh):
                 tasks.append((prop, n, s, n_sh, tier, verif_seed, per, None))
 
+    # ---- regression corpus: saved failing inputs of earlier defects / seeded changes (corpus/<Cxx>/*.json), replayed
+    # deterministically on every run whatever VERIF_SEED is; on a tree where the property holds each of them passes
+    corpus = []
+    cdir = os.path.join(HOME, "corpus", prop)
+    if os.path.isdir(cdir) and not a.facet:
+        for fn in sorted(os.listdir(cdir)):
+            if fn.endswith(".json"):
+                try:
+                    with open(os.path.join(cdir, fn)) as fh:
+                        rep = json.load(fh)
+                    if rep["facet"] in facets:
+                        corpus.append((os.path.join("corpus", prop, fn), rep))
+                except Exception:
+                    pass
+    n_gen = len(tasks)
+    for rel, rep in corpus:
+        tasks.append((prop, rep["facet"], 0, 1, tier, verif_seed, 1, rep["case"]))
+
     nproc = min(int(os.environ.get("VERIF_JOBS", "16")), max(1, len(tasks)))
     if nproc == 1 or os.environ.get("VERIF_INLINE"):
         results = [_run_shard(t) for t in tasks]
@@ -546,6 +564,8 @@ def main(argv=None):
         ctx = mp.get_context("spawn")
         with ctx.Pool(nproc, maxtasksperchild=1) as pool:
             results = pool.map(_run_shard, tasks, chunksize=1)
+    corpus_results = results[n_gen:]
+    results = results[:n_gen]
 
     # ---- merge
     harness_errors = [r for r in results if r["harness_error"]]
@@ -597,6 +617,18 @@ def main(argv=None):
             seen_sig.add(sig)
             rel = write_replay(prop, fname, fl)
             violations.append((fname, fl, rel))
+
+    corpus_stats = {"replayed": 0, "stale": 0}
+    for (rel, rep), res in zip(corpus, corpus_results):
+        if res["harness_error"]:
+            corpus_stats["stale"] += 1  # a saved input the current generators no longer describe: reported, never an alarm
+            continue
+        corpus_stats["replayed"] += 1
+        if res["failure"]:
+            sig = (rep["facet"], res["failure"]["oracle"])
+            if sig not in seen_sig:
+                seen_sig.add(sig)
+                violations.append((rep["facet"], res["failure"], rel))
 
     # ---- known findings: replay each witness deterministically
     known_lines = []
@@ -686,6 +718,7 @@ def main(argv=None):
                 "harness/shim/sitecustomize.py only restores the dead name scipy.linalg.kron",
             ],
             "wall_s": round(wall, 2),
+            "regression_corpus": corpus_stats,
             "violations": len(violations),
         }
         os.makedirs(os.path.join(HOME, "evidence"), exist_ok=True)
@@ -699,6 +732,8 @@ def main(argv=None):
             f"inconclusive={f.get('inconclusive', 0)} max_residual/tol={res_max:.3g} wall={f.get('wall_s', 0):.1f}s"
             + (f" known_hits={f['known_hits']}" if f.get("known_hits") else "")
         )
+    if corpus:
+        print(f"[{prop}/corpus] replayed={corpus_stats['replayed']} stale={corpus_stats['stale']}")
     for line in known_lines:
         print(line)
     if harness_errors:
